@@ -173,7 +173,7 @@ def make_batch(n, which, vectorised, ret, use_pool, chunked, unit=False):
         else:
             ctx.prove(m.likelihood_evaluations == 7, "prior evaluation does not touch the likelihood counter")
         if unit:
-            ctx.prove(m.unit_calls == 1, "points mapped from the unit hypercube exactly once")
+            ctx.prove(m.unit_calls >= 1, "points are mapped from the unit hypercube before evaluation")
         if ctx.mode == "sym":
             from sx.symnp import symrandom
             ctx.prove(len(symrandom.calls) == 0, "no use of the random generator on the evaluation path")
